@@ -375,9 +375,21 @@ class Program:
                 vals = gen.gen_values(rng, kind, n, "some")
                 arr = gen.np_column(kind, vals)
                 v = di.Vector(arr) if form == "vector" else (arr if form == "ndarray" else (arr.tolist() if kind in ("int", "float", "bool") else arr))
+                via = rng.choice(["item", "item", "setdefault", "ior", "ior-pairs"]) if op == "setitem" else "attr"
+                if via == "setdefault" and name in names:
+                    via = "item"
                 if op == "setitem":
+                    # the inherited dict spellings of a column assignment go through the same reconciliation as data[name] = v
                     def call():
-                        df[name] = v
+                        if via == "item": df[name] = v
+                        elif via == "setdefault":
+                            got = df.setdefault(name, v)
+                            if got is not dict.__getitem__(df, name):
+                                self.mon.violate("C01", "setdefault-returned-something-else", f"setdefault({name!r}, ...) did not return the stored column")
+                        elif via == "ior": df.__ior__({name: v})
+                        else: df.__ior__([(name, v)])
+                    desc = f"setitem:{via}"
+                    self.mon.count(f"assign-via:{via}")
                 else:
                     def call():
                         setattr(df, name, v)
@@ -394,8 +406,14 @@ class Program:
                     if vv.ndim != 0: vv = v
                 if form == "len1-vector":
                     v = np.asarray(vv)[0]
+                via = rng.choice(["item", "item", "item", "setdefault", "ior"])
+                if via == "setdefault" and name in names:
+                    via = "item"
                 def call():
-                    df[name] = vv
+                    if via == "item": df[name] = vv
+                    elif via == "setdefault": df.setdefault(name, vv)
+                    else: df.__ior__({name: vv})
+                self.mon.count(f"assign-via:{via}")
                 post = ("broadcast", name, v)
             elif op == "setitem_wrong_length":
                 if not names: return
@@ -403,13 +421,22 @@ class Program:
                 kind = rng.choice(["int", "float", "str"])
                 v = gen.np_column(kind, gen.gen_values(rng, kind, bad, "none"))
                 name = rng.choice(names + ["z"])
-                how = rng.choice(["setitem", "setattr", "modify", "cbind"])
+                how = rng.choice(["setitem", "setattr", "modify", "cbind", "setdefault", "ior", "ior-second"])
+                if how == "setdefault" and name in names:
+                    name = "z9"
                 pre_cells = canon.frame_cells(df)
                 try:
                     if how == "setitem":
                         df[name] = v
                     elif how == "setattr" and name.isidentifier() and name not in ("colnames",):
                         setattr(df, name, v)
+                    elif how == "setdefault":
+                        df.setdefault(name, v)
+                    elif how == "ior":
+                        df.__ior__({name: v})
+                    elif how == "ior-second":
+                        # a good column first, the bad one second: nothing may be stored
+                        df.__ior__({"zok": np.zeros(nrow), name: v})
                     elif how == "modify":
                         df.modify(**{name: v})
                     else:
